@@ -76,25 +76,38 @@ Proof.
   destruct (jget m "devices") as [[ms|devs|c| |bb|]|]; cbn; try contradiction; [|reflexivity].
   rewrite jv_arr.
   match goal with |- context [s_for_items _ ?sv ?b ?l0 w] =>
+    set (Linit := l0);
     assert (Hloop : forall body, (forall l w, body l w = b l w) -> forall devs l,
               forallb device_ok devs = true -> gparse_devices__self l = obj_of_g s ->
+              (forall f, gg_parse_devices_loop_stable f -> f l = f Linit) ->
               exists s' l', pick_device s devs = Ok s' /\ s_for_items (map jv devs) sv body l w = CNormal l' w
                             /\ gparse_devices__self l' = obj_of_g s');
-    [| destruct (Hloop _ (fun _ _ => eq_refl) devs l0 Hok eq_refl) as (s' & l' & Hp & Hl & Hs); rewrite Hp, Hl; cbn;
+    [| destruct (Hloop _ (fun _ _ => eq_refl) devs Linit Hok eq_refl (fun _ _ => eq_refl)) as (s' & l' & Hp & Hl & Hs); rewrite Hp, Hl; cbn;
        match goal with |- context [if ?c then _ else _] => destruct c end; cbn; rewrite Hs; reflexivity] end.
-  intros body Hb. induction devs0 as [|d t IH]; intros l Hd Hself.
+  intros body Hb. induction devs0 as [|d t IH]; intros l Hd Hself Hro.
   - exists s, l. repeat split; try reflexivity; exact Hself.
   - cbn [forallb] in Hd. apply andb_true_iff in Hd. destruct Hd as [Hd Ht].
     destruct (device_ok_inv d Hd) as (dm & ps & -> & Hpath).
     cbn [map s_for_items]. rewrite Hb. py_unfold. cbn. rewrite jv_obj. cbn. rewrite dict_get_jv, Hpath. cbn.
     change (jv (JStr ps)) with (PStr ps).
+    (* locals that the loop only reads have the value they had at loop entry *)
+    repeat match goal with
+    | |- context [?p l] =>
+        let H := fresh "Hp" in
+        assert (H : p l = p Linit) by (apply Hro; unfold gg_parse_devices_loop_stable; repeat split; intros; reflexivity);
+        rewrite !H; clear H
+    end.
     repeat (progress (cbn; rewrite ?Hself)). rewrite ?requested_truthy.
     destruct (requested s) as [r|] eqn:Hr.
     + rewrite (pick_cons_requested s dm ps t r Hpath Hr). rewrite (requested_is s r Hr).
       repeat (progress (cbn; rewrite ?Hself, ?(requested_is s r Hr))).
       destruct (String.eqb r ps) eqn:Heq; repeat (progress (cbn; rewrite ?Hself, ?(requested_is s r Hr))).
       * eexists _, _. repeat split; repeat (progress (cbn; rewrite ?Hself, ?(requested_is s r Hr))); reflexivity.
-      * apply IH; [exact Ht|]. cbn. exact Hself.
+      * apply IH; [exact Ht | cbn; exact Hself |].
+        intros f0 Hs. cbn. pose proof Hs as Hs'. unfold gg_parse_devices_loop_stable in Hs'.
+        repeat match type of Hs' with _ /\ _ => let A := fresh "A" in destruct Hs' as [A Hs'] end.
+        repeat match goal with H : forall l v, f0 (_ l v) = f0 l |- _ => rewrite H end.
+        apply Hro. exact Hs.
     + rewrite (pick_cons_none s dm ps t Hpath Hr). repeat (progress (cbn; rewrite ?Hself)).
       eexists _, _. repeat split; repeat (progress (cbn; rewrite ?Hself)); reflexivity.
 Qed.
@@ -141,16 +154,19 @@ Proof.
     pose proof (class_tests (jget m "class")) as Hc.
     destruct (jget m "class") as [c0|] eqn:Ecl; cbn.
     + rewrite ?dict_get_jv, ?Ecl. cbn.
-      destruct (classify (Some c0)) eqn:Ecf; injection Hc as H1 H2; rewrite ?H1, ?H2; cbn.
+      destruct (classify (Some c0)) eqn:Ecf; injection Hc as H1 H2;
+        repeat (progress (cbn; rewrite ?H1, ?H2, ?Hself)).
       * (* VERSION *)
-        rewrite Hself. rewrite <- jv_obj. rewrite bridge_parse_version.
-        destruct (jget m "release") as [r|]; [|discriminate Hd]. cbn.
+        rewrite <- ?jv_obj. rewrite bridge_parse_version.
+        destruct (jget m "release") as [r|]; [|discriminate Hd].
+        repeat (progress (cbn; rewrite ?H1, ?H2)).
         apply IH; [exact Ht | cbn; reflexivity].
       * (* DEVICES *)
-        rewrite Hself. rewrite <- jv_obj.
+        rewrite <- ?jv_obj.
         destruct (jget m "devices") as [[ms|devs|c1| |bb|]|] eqn:Ed; try discriminate Hd.
         rewrite (bridge_parse_devices fuel s0 m w) by (rewrite Ed; exact Hd). rewrite Ed.
-        destruct (pick_no_raise devs s0 Hd) as [s1 Hs1]. rewrite Hs1. cbn.
+        destruct (pick_no_raise devs s0 Hd) as [s1 Hs1]. rewrite Hs1.
+        repeat (progress (cbn; rewrite ?H1, ?H2)).
         apply IH; [exact Ht | cbn; reflexivity].
       * apply IH; [exact Ht | cbn; exact Hself].
     + unfold classify. apply IH; [exact Ht | cbn; exact Hself].
